@@ -4,9 +4,11 @@
 package mon
 
 import (
+	"bytes"
 	"encoding/hex"
 	"encoding/json"
 	"fmt"
+	"math/big"
 	"os"
 	"runtime"
 	"sort"
@@ -18,7 +20,10 @@ import (
 
 // RNG is splitmix64; sub-streams are keyed by strings so that case lists are a pure function of
 // (seed, tier, generator name).
-type RNG struct{ s uint64 }
+type RNG struct {
+	s    uint64
+	side uint64 // state of the side stream that serves single-byte reads (see Read)
+}
 
 func NewRNG(seed uint64) *RNG { return &RNG{s: seed} }
 
@@ -68,8 +73,25 @@ func (r *RNG) Fill(b []byte) {
 
 func (r *RNG) Bool() bool { return r.U64()&1 == 1 }
 
-// Read makes an RNG usable as an io.Reader (never fails).
-func (r *RNG) Read(p []byte) (int, error) { r.Fill(p); return len(p), nil }
+// Read makes an RNG usable as an io.Reader (never fails). Single-byte reads are served from a side stream and leave the
+// main stream where it is: the standard library's key generation and signing call randutil.MaybeReadByte, which reads
+// one byte or none on a coin flip — through the main stream that would shift everything generated afterwards by a byte
+// on every other run, and a case list would no longer be a function of the seed.
+func (r *RNG) Read(p []byte) (int, error) {
+	if len(p) == 1 {
+		if r.side == 0 {
+			r.side = r.s ^ 0x6a09e667f3bcc909
+		}
+		r.side += 0x9e3779b97f4a7c15
+		z := r.side
+		z = (z ^ (z >> 30)) * 0xbf58476d1ce4e5b9
+		z = (z ^ (z >> 27)) * 0x94d049bb133111eb
+		p[0] = byte(z ^ (z >> 31))
+		return 1, nil
+	}
+	r.Fill(p)
+	return len(p), nil
+}
 
 // Pick returns one of the given ints.
 func (r *RNG) Pick(v ...int) int { return v[r.Intn(len(v))] }
@@ -486,4 +508,81 @@ func Hex(b []byte) string {
 		return hex.EncodeToString(b[:6000]) + fmt.Sprintf("…(%d bytes)", len(b))
 	}
 	return hex.EncodeToString(b)
+}
+
+// ---------------------------------------------------------------- held results
+
+// Held remembers slices (and big integers) that calls returned, by reference, next to a private copy of their value at
+// return time. A result belongs to the caller: no later call may change it (results carved out of pooled or reused
+// buffers do exactly that). Check compares every kept reference with its copy.
+type Held struct {
+	mu    sync.Mutex
+	items []heldItem
+	Max   int // at most this many references are kept (0: 4096)
+	seen  int
+}
+
+type heldItem struct {
+	label string
+	ref   []byte
+	val   []byte
+	iref  *big.Int
+	ival  *big.Int
+	seq   int
+}
+
+func (h *Held) full() bool {
+	m := h.Max
+	if m == 0 {
+		m = 4096
+	}
+	return len(h.items) >= m
+}
+
+// Keep registers a returned slice.
+func (h *Held) Keep(label string, b []byte) {
+	h.mu.Lock()
+	defer h.mu.Unlock()
+	h.seen++
+	if b == nil || h.full() {
+		return
+	}
+	h.items = append(h.items, heldItem{label: label, ref: b, val: append([]byte{}, b...), seq: h.seen})
+}
+
+// KeepInt registers a returned integer.
+func (h *Held) KeepInt(label string, v *big.Int) {
+	h.mu.Lock()
+	defer h.mu.Unlock()
+	h.seen++
+	if v == nil || h.full() {
+		return
+	}
+	h.items = append(h.items, heldItem{label: label, iref: v, ival: new(big.Int).Set(v), seq: h.seen})
+}
+
+// Check returns a description of every kept result whose value is no longer what was returned.
+func (h *Held) Check() []string {
+	h.mu.Lock()
+	defer h.mu.Unlock()
+	var out []string
+	for _, it := range h.items {
+		switch {
+		case it.ref != nil && !bytes.Equal(it.ref, it.val):
+			out = append(out, fmt.Sprintf("%s: result #%d was %x when returned and is %x after later calls", it.label, it.seq, clip(it.val), clip(it.ref)))
+		case it.iref != nil && it.iref.Cmp(it.ival) != 0:
+			out = append(out, fmt.Sprintf("%s: integer result #%d was %x when returned and is %x after later calls", it.label, it.seq, it.ival, it.iref))
+		}
+	}
+	return out
+}
+
+// Kept is the number of references under watch.
+func (h *Held) Kept() int { h.mu.Lock(); defer h.mu.Unlock(); return len(h.items) }
+
+func clip(b []byte) []byte {
+	if len(b) > 48 {
+		return b[:48]
+	}
+	return b
 }
